@@ -25,3 +25,11 @@ $M --replace happysimulator/components/rate_limiter/distributed.py 'time=self.no
 $M --replace happysimulator/components/industrial/batch_processor.py 'time=self.now,
                 event_type=item.event_type,' 'time=item.time,
                 event_type=item.event_type,' C07
+# M11 (post-fix round) start event handed out by a component stamped with the epoch instead of the current time
+$M --replace happysimulator/components/load_balancer/health_check.py 'time=self.now if self._clock is not None else Instant.Epoch,' 'time=Instant.Epoch,' C07
+# M12 (post-fix round) gate reopening emits the queued items stamped with their arrival time
+$M --replace happysimulator/components/industrial/gate_controller.py 'results.append(
+                Event(
+                    time=self.now,' 'results.append(
+                Event(
+                    time=queued.time,' C07
